@@ -224,20 +224,20 @@ func trimResultsToRange(dr *planner.DateRange, rowlen int, src []byte) (dest []b
 		cursor += rowLength
 	}
 
+	// find the end of the range: keep everything up to the last record that is
+	// not after dr.End (nothing, if every remaining record is after it)
 	nrecords = len(dest) / rowLength
-	if nrecords <= 1 {
-		return dest
-	}
+	end := 0
 	for i := nrecords; i > 0; i-- {
 		cursor = (i - 1) * rowLength
 		t := TimeOfVariableRecord(dest, cursor, rowLength)
 		if t.Equal(dr.End) || t.Before(dr.End) {
-			dest = dest[:cursor+rowLength]
+			end = cursor + rowLength
 			break
 		}
 	}
 
-	return dest
+	return dest[:end]
 }
 
 func TimeOfVariableRecord(buf []byte, cursor, rowLength int) time.Time {
